@@ -372,6 +372,8 @@ impl<T: CloseValue> Drop for SlotGuard<T> {
         if let SlotI::Writable { value, tx } = std::mem::replace(&mut self.slot, SlotI::Dropped) {
             // send the value back to the parent
             let _ = tx.send(value.close());
+            #[cfg(metrique_verif)]
+            metrique_writer_core::verif::point(13);
         } else {
             unreachable!("move out of slot must only occur during drop")
         }
